@@ -200,8 +200,29 @@ fn analyze_used_function_names_and_type_names(
 pub(super) fn optimize_lir_sources_by_eliminating_unused_ones(
   Sources { symbol_table, global_variables, type_definitions, main_function_names, functions }: Sources,
 ) -> Sources {
-  let (used_str_names, used_fn_names, used_types) =
+  let (used_str_names, used_fn_names, mut used_types) =
     analyze_used_function_names_and_type_names(&functions, &main_function_names);
+  // A kept type definition can mention types that no used function mentions (the payload of an
+  // enum variant that is only ever tested, never built): they must be kept as well, transitively,
+  // or the emitted module refers to a type that does not exist.
+  loop {
+    let mut referenced = HashSet::new();
+    for d in &type_definitions {
+      if used_types.contains(&d.name) {
+        if let Some(parent) = d.parent_type {
+          referenced.insert(parent);
+        }
+        for t in &d.mappings {
+          collect_for_type_set(t, &mut referenced);
+        }
+      }
+    }
+    let before = used_types.len();
+    used_types.extend(referenced);
+    if used_types.len() == before {
+      break;
+    }
+  }
   Sources {
     symbol_table,
     global_variables: global_variables
